@@ -35,3 +35,15 @@ func verifEvent(site string, args ...any) {
 func VerifScheduleActive(start, end string, weekdays []time.Weekday, dates []string, t time.Time) (bool, error) {
 	return newSchedule(start, end, weekdays, dates).activeForTime(t)
 }
+
+// VerifScheduleActiveSeq evaluates one schedule value at several instants in a
+// row (state a schedule may keep between calls is part of what is observed).
+func VerifScheduleActiveSeq(start, end string, weekdays []time.Weekday, dates []string, ts []time.Time) ([]bool, []error) {
+	s := newSchedule(start, end, weekdays, dates)
+	res := make([]bool, len(ts))
+	errs := make([]error, len(ts))
+	for i, t := range ts {
+		res[i], errs[i] = s.activeForTime(t)
+	}
+	return res, errs
+}
